@@ -61,10 +61,19 @@ pub const LOSING: &[SPos] = &[
     SPos { name: "facing-ladder-b", fen: "7k/8/8/8/8/8/R7/1R4K1 b - - 0 1", history: "" },
 ];
 
+/// Positions whose search stays tiny at any depth (forced mates, a single legal move): searched
+/// with the largest depth limits the protocol value allows (`go depth 254`, `go depth 255`).
+pub const DEEP: &[SPos] = &[
+    SPos { name: "deep-mate-in-1", fen: "7k/8/5K2/6Q1/8/8/8/8 w - - 0 1", history: "" },
+    SPos { name: "deep-one-legal-move", fen: "7k/8/8/8/8/8/6q1/7K w - - 0 1", history: "" },
+    SPos { name: "deep-near-stalemate", fen: "7k/8/4Q1K1/8/8/8/8/8 w - - 0 1", history: "" },
+    SPos { name: "deep-promotion-mate", fen: "8/1R3P2/2Nk4/3P4/2P4P/3P4/8/6K1 w - - 1 95", history: "" },
+];
+
 /// Every listed position must be a legal position with at least one legal move (machinery error
 /// otherwise: an illegal position - side not to move in check - is outside every property's domain).
 pub fn validate() -> Result<(), String> {
-    for p in P9.iter().chain(DENSE.iter()).chain(LOSING.iter()) {
+    for p in P9.iter().chain(DENSE.iter()).chain(LOSING.iter()).chain(DEEP.iter()) {
         let (_, pos, _) = super::searchrun::open(p.fen, &hist(p)).map_err(|e| format!("search position {}: {e}", p.name))?;
         if pos.legal_moves().is_empty() {
             return Err(format!("search position {} has no legal move", p.name));
